@@ -39,7 +39,11 @@ def _check_dejitter(case):
     lo = case[5] if len(case) > 5 else 0  # the whole scene moved far from zero (sums stay exact); or an explicit (lo, hi) span
     lo, hi = lo if isinstance(lo, tuple) else (lo, lo + 2)
     tier = (IT if kind == "I" else PT)("t", list(entries), lo, hi)
-    if rkind == "twin":     # the reference is another version of the SAME tier (same name, span, labels): its times differ from the subject's by rounding noise
+    if rkind in ("Pspan", "Ispan"):     # the reference tier has a span of its own (another stretch of the recording; disjoint from the subject's, touching it, ...)
+        ref, rspan = ref
+        rt = _ref_tier(rkind[0], ref, rspan[0], rspan[1])
+        rkind = rkind[0]
+    elif rkind == "twin":     # the reference is another version of the SAME tier (same name, span, labels): its times differ from the subject's by rounding noise
         rt = (IT if kind == "I" else PT)("t", list(ref), lo, hi)
     else:
         rt = _ref_tier(rkind, ref, lo, hi)
@@ -262,6 +266,15 @@ def parts(tier):
         for e, tw in (((((U[2], "x"), (U[4], "y"))), ((U[1], "x"), (U[3], "y"))), ((((U[1], "x"), (U[3], "y"))), ((U[2], "x"), (U[4], "y")))):
             for md in (0.001, 0.25):
                 yield ("P", e, "twin", tw, md, (U[0], U[5]))
+        # the reference tier covers ANOTHER stretch than the subject (spans disjoint, a gap of 0.125 between them, or touching): what decides is the
+        # distance between timestamps, not whether the declared spans overlap
+        for e, sp in ((((0.5, 1.875, "a"),), (0.0, 1.875)), (((0.25, 1.0, "a"), (1.0, 1.9375, "b")), (0.0, 2.0)), (((2.125, 3.0, "a"),), (2.125, 4.0))):
+            for ref, rsp in (((2.0, 3.0), (2.0, 4.0)), ((2.0, 2.5), (2.0625, 3.0)), ((1.0, 2.0), (0.0, 2.0)), ((0.0, 2.0), (0.0, 2.0625))):
+                if rsp[0] <= ref[0] and ref[-1] <= rsp[1]:
+                    for md in (0.125, 0.25):
+                        yield ("I", e, "Pspan", (ref, rsp), md, sp)
+                        yield ("I", e, "Ispan", (ref, rsp), md, sp)
+                        yield ("P", tuple((x[0], x[2]) for x in e), "Pspan", (ref, rsp), md, sp)
         # the same scene at 2**40 s: maxDifference is an absolute duration, whatever the magnitude of the times
         B0 = D.BIG0
         for s in sets[::3]:
